@@ -136,38 +136,59 @@ Lemma D_prepare s : D s -> D (log_prepare s).
 Proof. intros H. unfold log_prepare. destruct (first s); [apply D_prim; [apply D_write_hdr|exact H]|exact H]. Qed.
 
 (* ---------- the rename chain ---------- *)
+Definition same_disk (s s' : st) : Prop :=
+  files s' = files s /\ hbuf s' = hbuf s /\ next s' = next s /\ flushed s' = flushed s /\
+  dropped s' = dropped s /\ events s' = events s /\ since s' = since s.
+
+Lemma same_disk_refl s : same_disk s s.
+Proof. repeat split. Qed.
+Lemma same_disk_trans a b c0 : same_disk a b -> same_disk b c0 -> same_disk a c0.
+Proof. unfold same_disk. intros [A1 [A2 [A3 [A4 [A5 [A6 A7]]]]]] [B1 [B2 [B3 [B4 [B5 [B6 B7]]]]]]. repeat split; congruence. Qed.
+
+Lemma gate_spec s s' b : rename_gate s = (s', b) ->
+  same_disk s s' /\ (b = false -> crashed s' = true \/ fault s' = true) /\
+  (b = true -> crashed s' = false /\ crashed s = false /\ fault s' = fault s) /\
+  (crashed s = true -> s' = s).
+Proof.
+  unfold rename_gate. destruct (crashed s) eqn:C.
+  { intros E. inversion E; subst. split; [apply same_disk_refl|]. split; [auto|]. split; [discriminate|auto]. }
+  assert (G : forall fu', (let s1 := set_fuel s fu' false (fault s) in
+              match rfail s1 with
+              | Some O => (set_rfail s1 None true, false)
+              | Some (S n) => (set_rfail s1 (Some n) (fault s1), true)
+              | None => (s1, true)
+              end) = (s', b) ->
+            same_disk s s' /\ (b = false -> crashed s' = true \/ fault s' = true) /\
+            (b = true -> crashed s' = false /\ false = false /\ fault s' = fault s) /\ (false = true -> s' = s)).
+  { intros fu' E. cbv zeta in E. destruct (rfail (set_fuel s fu' false (fault s))) as [[|n]|];
+      inversion E; subst; (split; [repeat split|]); (split; [auto; try discriminate|]); (split; [auto; try discriminate|discriminate]). }
+  destruct (fuel s) as [[|n]|].
+  - intros E. inversion E; subst. split; [repeat split|]. split; [auto|]. split; [discriminate|discriminate].
+  - apply G.
+  - apply G.
+Qed.
+
 Lemma chain_spec rest : forall a0 s s' l', chain a0 rest s = (s', l') ->
   (view l' = view (a0 :: rest) \/ view l' = view rest) /\ l' <> [] /\
   files s' = files s /\ hbuf s' = hbuf s /\ next s' = next s /\ flushed s' = flushed s /\
   dropped s' = dropped s /\ events s' = events s /\
   (crashed s' = false -> fault s' = false -> rest <> [] -> last l' None = None).
 Proof.
-  induction rest as [|a1 rest IH]; intros a0 s s' l' E; cbn in E.
+  induction rest as [|a1 rest IH]; intros a0 s s' l' E; cbn [chain] in E.
   - inversion E; subst. repeat split; auto; try discriminate; try (intros; congruence).
-  - destruct (crashed s) eqn:C.
-    { inversion E; subst. repeat split; auto; try discriminate; try (intros; congruence). }
-    assert (G : forall fu', (let s0 := set_fuel s fu' false (fault s) in
-                match a1 with
-                | None => (set_fuel s0 (fuel s0) false true, a0 :: a1 :: rest)
-                | Some c => let '(s'', r') := chain None rest s0 in (s'', Some c :: r')
-                end) = (s', l') ->
-              (view l' = view (a0 :: a1 :: rest) \/ view l' = view (a1 :: rest)) /\ l' <> [] /\
-              files s' = files s /\ hbuf s' = hbuf s /\ next s' = next s /\ flushed s' = flushed s /\
-              dropped s' = dropped s /\ events s' = events s /\
-              (crashed s' = false -> fault s' = false -> a1 :: rest <> [] -> last l' None = None)).
-    { intros fu' E'. cbv zeta in E'. destruct a1 as [c|].
-      - destruct (chain None rest (set_fuel s fu' false (fault s))) as [s'' r'] eqn:EC.
-        inversion E'; subst. destruct (IH _ _ _ _ EC) as [V [N [F1 [F2 [F3 [F4 [F5 [F6 L]]]]]]]].
-        repeat split; auto; try discriminate.
-        + right. unfold view in *. cbn. destruct V as [V|V]; rewrite V; reflexivity.
-        + intros Cr Fa _. destruct rest as [|a2 rest'].
-          * cbn in EC. inversion EC; subst. reflexivity.
-          * specialize (L Cr Fa). destruct r' as [|x r'']; [congruence|]. cbn. apply L. discriminate.
-      - inversion E'; subst. repeat split; auto; try discriminate; try (cbn; intros; congruence). }
-    destruct (fuel s) as [[|n]|] eqn:Fu.
-    + inversion E; subst. repeat split; auto; try discriminate; try (cbn; intros; congruence).
-    + apply (G (Some n)). exact E.
-    + apply (G None). exact E.
+  - destruct (rename_gate s) as [sg b] eqn:EG. destruct (gate_spec _ _ _ EG) as [[F1 [F2 [F3 [F4 [F5 [F6 F7]]]]]] [Gf [Gt _]]].
+    destruct b.
+    + destruct a1 as [c0|].
+      * destruct (chain None rest sg) as [s'' r'] eqn:EC. inversion E; subst.
+        destruct (IH _ _ _ _ EC) as [V [N [H1 [H2 [H3 [H4 [H5 [H6 L]]]]]]]].
+        repeat split; try congruence; try discriminate.
+        -- right. unfold view in *. cbn. destruct V as [V|V]; rewrite V; reflexivity.
+        -- intros Cr Fa _. destruct rest as [|a2 rest'].
+           ++ cbn in EC. inversion EC; subst. reflexivity.
+           ++ specialize (L Cr Fa). destruct r' as [|x r'']; [congruence|]. cbn. apply L. discriminate.
+      * inversion E; subst. repeat split; auto; try discriminate; try (cbn; intros; congruence).
+    + inversion E; subst. repeat split; auto; try discriminate.
+      intros Cr Fa _. destruct (Gf eq_refl); congruence.
 Qed.
 
 Lemma seq_split_app (l1 l2 : list nat) d n : l1 ++ l2 = seq d n ->
@@ -256,15 +277,10 @@ Proof. intros H. unfold log_prepare. destruct (first s); [apply E_prim; [apply E
 
 Lemma chain_length rest : forall a0 s s' l', chain a0 rest s = (s', l') -> length l' = S (length rest).
 Proof.
-  induction rest as [|a1 rest IH]; intros a0 s s' l' E0; cbn in E0; [inversion E0; reflexivity|].
-  destruct (crashed s); [inversion E0; reflexivity|].
-  assert (G : forall s0, match a1 with
-                | None => (set_fuel s0 (fuel s0) false true, a0 :: a1 :: rest)
-                | Some c => let '(s'', r') := chain None rest s0 in (s'', Some c :: r')
-                end = (s', l') -> length l' = S (S (length rest))).
-  { intros s0 E'. destruct a1 as [c|]; [|inversion E'; reflexivity].
-    destruct (chain None rest s0) as [s'' r'] eqn:EC. inversion E'; subst. cbn. rewrite (IH _ _ _ _ EC). reflexivity. }
-  destruct (fuel s) as [[|n]|]; [inversion E0; reflexivity| |]; eapply G; exact E0.
+  induction rest as [|a1 rest IH]; intros a0 s s' l' E0; cbn [chain] in E0; [inversion E0; reflexivity|].
+  destruct (rename_gate s) as [sg b]. destruct b; [|inversion E0; reflexivity].
+  destruct a1 as [c0|]; [|inversion E0; reflexivity].
+  destruct (chain None rest sg) as [s'' r'] eqn:EC. inversion E0; subst. cbn. rewrite (IH _ _ _ _ EC). reflexivity.
 Qed.
 
 (* closing leaves no handle (unless the process died on the way) *)
